@@ -20,6 +20,7 @@ mod mon_par;
 mod mini;
 mod supervise;
 mod mon_stream;
+mod poison;
 mod prng;
 mod refdec;
 mod sched;
